@@ -17,8 +17,8 @@ func init() {
 		Level: "fault_enumeration",
 		Rule: "seeded batches of 1..40 calls (get/put/delete/append/increment) over 1..5 regions on 1..3 servers, queue size " +
 			"{1,2,5,100}; each call follows an outcome script across attempts over {ok, fatal, retry-later, region-not-serving, " +
-			"connection dies before execution, connection dies after execution, per-action server-aborted exception}; invalid entries (other table, duplicate call, " +
-			"non-batchable call) at every position; table dropped between rounds; cancellations. Judged on the server-side " +
+			"connection dies before execution, connection dies after execution, per-action server-aborted exception}; invalid entries (other table, same table name in another namespace, duplicate call, " +
+			"non-batchable call: scan, SkipBatch get, check-and-put) at every position; table dropped between rounds; cancellations. Judged on the server-side " +
 			"log: nothing sent for invalid batches, executions only by the owning region, first presentation per region in " +
 			"batch order, re-sent subsets in batch order, no arrival after a delivered success or fatal error. distinct = " +
 			"outcome matrix + layout + invalid/trigger; non-trivial = at least one non-ok outcome, invalid entry or >1 region",
